@@ -18,45 +18,63 @@ VARIABLE l
 vars == <<l>>
 
 \* ---- comparison of an observation with the model's (close() calls of a real generator cannot be counted)
-ItSame(m, x) == m.y = x.y /\ m.done = x.done /\ (x.g \/ (m.stops = x.stops /\ m.closes = x.closes))
-EvVisible(ev, post) == SelectSeq(ev, LAMBDA e : ~(e.t = "src" /\ post.its[e.id].g))
-DriftOf(m, x) ==
+\* hard: what the later clauses build on (results, the body, how far an iterable was advanced);
+\* soft: bookkeeping of close() calls / StopIterations / callback counts (the model is re-synchronised and goes on)
+HardDrift(m, x) ==
   IF m.ret.k # "any" /\ m.exc # x.exc THEN "exc"
   ELSE IF m.ret.k # "any" /\ m.ret # x.ret THEN "ret"
-  ELSE IF EvVisible(m.ev, m.post) # x.ev THEN "events"
   ELSE IF m.post.ty # x.post.ty THEN "type"
   ELSE IF m.post.items # x.post.items THEN "items"
   ELSE IF m.post.cl # x.post.cl THEN "content-length"
   ELSE IF m.post.etag # x.post.etag THEN "etag"
-  ELSE IF \E j \in 1..2 : ~ItSame(m.post.its[j], x.post.its[j]) THEN "iterable-counters"
-  ELSE IF m.post.cbn # x.post.cbn THEN "callback-counts"
+  ELSE IF \E j \in 1..2 : m.post.its[j].y # x.post.its[j].y THEN "iterable-advanced"
+  ELSE IF Len(m.post.cbn) # Len(x.post.cbn) THEN "callbacks-registered"
   ELSE IF m.post.cls # x.post.cls THEN "class"
   ELSE IF m.post.sc # x.post.sc THEN "stream-closed"
   ELSE "ok"
+ItSame(m, x) == m.done = x.done /\ (x.g \/ (m.stops = x.stops /\ m.closes = x.closes))
+EvVisible(ev, post) == SelectSeq(ev, LAMBDA e : ~(e.t = "src" /\ post.its[e.id].g))
+SoftDrift(m, x) ==
+  IF EvVisible(m.ev, m.post) # x.ev THEN "close-events"
+  ELSE IF \E j \in 1..2 : ~ItSame(m.post.its[j], x.post.its[j]) THEN "iterable-close-counters"
+  ELSE IF m.post.cbn # x.post.cbn THEN "callback-counts"
+  ELSE "ok"
+Resync(s, post) ==
+  [s EXCEPT !.cbn = post.cbn,
+            !.its = [j \in 1..2 |-> IF post.its[j].g THEN s.its[j]
+                                     ELSE [s.its[j] EXCEPT !.stops = post.its[j].stops, !.closes = post.its[j].closes]]]
 
-\* sf / sd: model state under "fixed" / "deferred"; okf / okd: that variant still agrees with everything observed
-RECURSIVE Run(_, _, _, _, _, _, _, _)
-Run(sf, sd, okf, okd, prev, taken, hist, i) ==
-  IF i > Len(hist) THEN [v |-> "ok", d |-> "ok", step |-> 0]
+\* sf / sd: model state under "fixed" / "deferred"; okf / okd: that variant still agrees with everything observed;
+\* d / ds: the first drift found so far and its step
+RECURSIVE Run(_, _, _, _, _, _, _, _, _, _)
+Run(sf, sd, okf, okd, prev, taken, hist, i, d, ds) ==
+  IF i > Len(hist) THEN [v |-> "ok", d |-> d, step |-> ds]
   ELSE LET op == hist[i].op
            o == hist[i].o
-       IN IF ~Enabled(sf, op) THEN [v |-> "ok", d |-> "out-of-domain", step |-> i]
+       IN IF ~Enabled(sf, op) THEN [v |-> "ok", d |-> IF d = "ok" THEN "out-of-domain" ELSE d, step |-> IF d = "ok" THEN i ELSE ds]
           ELSE LET cl == Clause(sf, op, prev, o)
                    rf == Step("fixed", sf, op)
                    rd == Step("deferred", sd, op)
                    tk == IF op.o \in {"call", "iter_take"} /\ Wrapped(sf) > 0 /\ o.ret.k = "chunks" THEN taken \o BytesOf(o.ret.ch) ELSE taken
                IN IF cl # "ok" THEN [v |-> cl, d |-> "ok", step |-> i]
                   ELSE IF o.exc = "" /\ ~ConservationObs(rf.s, tk, o.post) THEN [v |-> "Conservation", d |-> "ok", step |-> i]
-                  ELSE LET df == IF okf THEN DriftOf(Obs(rf), o) ELSE "x"
-                           dd == IF okd THEN DriftOf(Obs(rd), o) ELSE "x"
-                       IN IF df # "ok" /\ dd # "ok" THEN [v |-> "ok", d |-> IF okf THEN df ELSE dd, step |-> i]
-                          ELSE Run(rf.s, rd.s, df = "ok", dd = "ok", o.post, tk, hist, i + 1)
+                  ELSE LET hf == IF okf THEN HardDrift(Obs(rf), o) ELSE "x"
+                           hd == IF okd THEN HardDrift(Obs(rd), o) ELSE "x"
+                           af == hf = "ok" /\ SoftDrift(Obs(rf), o) = "ok"
+                           ad == hd = "ok" /\ SoftDrift(Obs(rd), o) = "ok"
+                       IN IF af \/ ad THEN Run(rf.s, rd.s, af, ad, o.post, tk, hist, i + 1, d, ds)
+                          ELSE IF hf = "ok" \/ hd = "ok"
+                          THEN LET w == IF hf = "ok" THEN SoftDrift(Obs(rf), o) ELSE SoftDrift(Obs(rd), o) IN
+                               Run(Resync(rf.s, o.post), Resync(rd.s, o.post), hf = "ok", hd = "ok", o.post, tk, hist, i + 1,
+                                   IF d = "ok" THEN w ELSE d, IF d = "ok" THEN i ELSE ds)
+                          ELSE [v |-> "ok", d |-> IF d = "ok" THEN (IF okf THEN hf ELSE hd) ELSE d, step |-> IF d = "ok" THEN i ELSE ds]
 
 HistVerdict(ln) ==
   LET s0 == InitState(ln.init)
-      d0 == DriftOf(Obs(Res(s0)), [exc |-> "", ret |-> R0, ev |-> <<>>, post |-> ln.obs0])
-  IN IF d0 # "ok" THEN [v |-> "ok", d |-> "construct", step |-> 0]
-     ELSE Run(s0, s0, TRUE, TRUE, ln.obs0, <<>>, ln.hist, 1)
+      m0 == Obs(Res(s0))
+      x0 == [exc |-> "", ret |-> R0, ev |-> <<>>, post |-> ln.obs0]
+  IN IF HardDrift(m0, x0) # "ok" \/ SoftDrift(m0, x0) # "ok" THEN [v |-> "ok", d |-> "construct", step |-> 0]
+     ELSE Run(s0, s0, TRUE, TRUE, ln.obs0, <<>>, ln.hist, 1, "ok", 0)
 
 \* ---- ClosingIterator / FileWrapper histories
 RECURSIVE CIRun(_, _, _, _)
